@@ -75,7 +75,7 @@ Fixpoint q_loop (ms : list rmove) (alpha : Z) (line : option (list move)) (st : 
   | m :: r =>
       do stp <- push st (rm m);
       do c <- child stp (- beta) (- alpha);
-      let st' := pop (ist c) in
+      let st' := poll (pop (ist c)) in
       let s := - iv c in
       let '(up, st'') := check_up st' in
       if up then Ok (ir alpha line st'')
@@ -270,8 +270,9 @@ Proof.
   induction l as [|m l IH]; intros alpha line st r H.
   - inversion H. apply keeps_refl.
   - cbn [q_loop] in H. apply bind_ok in H. destruct H as (stp & P & H). apply bind_ok in H. destruct H as (c & C & H).
-    cbv zeta in H. pose proof (keeps_push_pop _ _ _ _ P (child_keeps _ _ _ _ C)) as K1.
-    pose proof (keeps_check_up (pop (ist c))) as K2. destruct (check_up (pop (ist c))) as [up st''].
+    cbv zeta in H.
+    pose proof (keeps_trans _ _ _ (keeps_push_pop _ _ _ _ P (child_keeps _ _ _ _ C)) (keeps_poll (pop (ist c)))) as K1.
+    pose proof (keeps_check_up (poll (pop (ist c)))) as K2. destruct (check_up (poll (pop (ist c)))) as [up st''].
     cbn [snd] in K2. pose proof (keeps_trans _ _ _ K1 K2) as K.
     destruct up; [inversion H; exact K|].
     destruct (- iv c >=? beta); [inversion H; exact K|].
@@ -419,7 +420,8 @@ Proof.
     cbn [q_loop] in H. apply bind_ok in H. destruct H as (stp & P & H). apply bind_ok in H. destruct H as (c & C & H).
     destruct (step_quiet _ _ _ _ _ _ Q T P C) as (p' & M & Q' & T' & Q1 & T1).
     rewrite R1 in M. inversion M; subst p''. clear M.
-    destruct (check_up_quiet _ Q1 T1) as (st'' & CU & Q2 & T2).
+    destruct (keeps_top _ _ _ (keeps_poll (pop (ist c))) Q1 T1) as [Q1p T1p].
+    destruct (check_up_quiet _ Q1p T1p) as (st'' & CU & Q2 & T2).
     cbv zeta in H. rewrite CU in H. cbv beta iota in H.
     assert (W' : wok (- beta) (- alpha)) by (apply wok_neg; eapply wok_sub; [exact W | lia | lia]).
     pose proof (child_bc stp p' (- beta) (- alpha) c w ltac:(lia) W' Q' T' (OKC m p' (or_introl eq_refl) R1) C R2) as Cb.
@@ -724,9 +726,11 @@ Proof.
   cbn [q_loop]. rewrite push_erase. destruct (push st (rm m)) as [stp|w] eqn:P; cbn [smap bind]; [|reflexivity].
   rewrite child_erase by (eapply push_quiet; eauto).
   destruct (child stp (- beta) (- alpha)) as [c|w] eqn:C; cbn [smap bind]; [|reflexivity].
-  cbv zeta. cbn [erase_r ist iv iline ir]. change (pop (erase (ist c))) with (erase (pop (ist c))).
+  cbv zeta. cbn [erase_r ist iv iline ir]. change (poll (pop (erase (ist c)))) with (erase (pop (ist c))).
   destruct (keeps_push_pop _ _ _ _ P (child_keeps _ _ _ _ C)) as [_ Q1]. specialize (Q1 Q).
-  destruct (check_up_erase _ Q1) as (st'' & CU & CUE & ES & Q2). rewrite CU, CUE. cbv beta iota.
+  rewrite <- (erase_poll _ Q1).
+  destruct (keeps_poll (pop (ist c))) as [_ Q1p]. specialize (Q1p Q1).
+  destruct (check_up_erase _ Q1p) as (st'' & CU & CUE & ES & Q2). rewrite CU, CUE. cbv beta iota.
   rewrite <- ES.
   destruct (- iv c >=? beta); [reflexivity|].
   destruct (- iv c >? alpha); [|apply IH; exact Q2].
@@ -1106,8 +1110,8 @@ Proof.
   induction l as [|m l IH]; intros alpha line st w T D OK H; [discriminate H|].
   cbn [q_loop] in H. apply step_cap in H; [ | exact T | exact D | intros p' M; eapply OK; [left; reflexivity | exact M]].
   destruct H as [H | (c & K & H)]; [exact H|]. cbv zeta in H.
-  pose proof (keeps_check_up (pop (ist c))) as K2. destruct (check_up (pop (ist c))) as [up st''].
-  cbn [snd] in K2. pose proof (keeps_trans _ _ _ K K2) as K3.
+  pose proof (keeps_check_up (poll (pop (ist c)))) as K2. destruct (check_up (poll (pop (ist c)))) as [up st''].
+  cbn [snd] in K2. pose proof (keeps_trans _ _ _ (keeps_trans _ _ _ K (keeps_poll (pop (ist c)))) K2) as K3.
   assert (OK' : forall m p', In m l -> make_legal p (rm m) = Ok p' -> okm p') by (intros; eapply OK; eauto; right; assumption).
   pose proof (keeps_top' _ _ _ K3 T) as T3. pose proof (keeps_ply _ _ K3) as D3. rewrite D in D3.
   destruct up; [discriminate H|]. destruct (- iv c >=? beta); [discriminate H|].
